@@ -43,7 +43,7 @@ def gen_quad(rng):
     d = float(rng.choice([0.0, -1.0, 1.0, -2.0, 5.0]))
     x0 = float(rng.choice([1.0, 0.0, -2.0, 0.25]))
     z0 = float(rng.choice([0.0, 1.0, 1.001, -1.0, 3.0, 0.1, 50.0, 1e-3, 1.0 + 1e-7]))
-    rtol = float(rng.choice([1e-3, 1e-6, 1e-9]))
+    rtol = float(rng.choice([1e-3, 1e-6, 1e-9, 1.0, 10.0, 0.3]))
     t0 = float(rng.choice([0.0, 0.0, 1.0, -3.5, 100.0]))
     if rng.random() < 0.3:
         # large algebraic values with a small absolute inconsistency: the consistency threshold is absolute (1e-6), it does
@@ -108,18 +108,31 @@ def run(rep, tier, seed):
     nquad = 300 if tier == "quick" else 5000
     nan_starts = [(1.0, 1.0, 0.0, -1.0, 1.0, float("nan"), 1e-3, 0.0), (0.0, 1.0, 1.0, 0.0, 0.25, float("nan"), 1e-6, 1.0),
                   (0.0, 4.0, -1.0, 5.0, float("nan"), 1.0, 1e-3, 0.0), (3.0, 0.0, 0.0, -2.0, -2.0, float("inf"), 1e-9, -3.5)]
-    for iq in range(nquad + len(nan_starts)):
-        a, b, c, d, x0, z0, rtol, t0 = gen_quad(rng) if iq < nquad else nan_starts[iq - nquad]
+    # single-precision starts of 0 = z*z - x with x of size 1e3 .. 1e5: z*z rounds to x in float32 although the residual in double
+    # precision is 1e-4 .. 1e-3 (the start values themselves are exact in double precision)
+    rng32 = np.random.default_rng([seed, 3232])
+    f32_starts = []
+    for _ in range(12 if tier == "quick" else 120):
+        x32 = np.float32(rng32.uniform(2.6e3, 6.3e4))
+        z32 = np.float32(np.sqrt(np.float64(x32)))
+        f32_starts.append((1.0, 0.0, -1.0, 0.0, float(x32), float(z32), float(rng32.choice([1e-3, 1e-6])), 0.0))
+    for iq in range(nquad + len(nan_starts) + len(f32_starts)):
+        is32 = iq >= nquad + len(nan_starts)
+        a, b, c, d, x0, z0, rtol, t0 = gen_quad(rng) if iq < nquad else (nan_starts[iq - nquad] if not is32 else f32_starts[iq - nquad - len(nan_starts)])
         case = dict(a=a, b=b, c=c, d=d, x0=x0, z0=z0, rtol=rtol, t0=t0)
         dae = quad_dae(a, b, c, d)
         y0 = np.array([x0, z0])
+        if is32:
+            y0 = y0.astype(np.float32)
+            case["start_dtype"] = "float32"
+            hist["start_float32"] = hist.get("start_float32", 0) + 1
         y0c = y0.copy()
         try:
             y = quiet(DaeIc, dae, y0, t0, rtol)
             y = np.asarray(y, dtype=float)
             ans = "ok " + " ".join(f2h(v) for v in y)
-            g = a * y[1] * y[1] + b * y[1] + c * y[0] + d
-            if not (abs(g) <= max(1e-6, 1e-5 * rtol) * (1 + 1e-12)):
+            g = a * y[1] * y[1] + b * y[1] + c * y[0] + d       # in double precision
+            if not (abs(g) <= 1e-6 * (1 + 1e-12)):          # a fixed threshold, whatever rtol is
                 fails.append((case, f"DaeIc returned z = {y[1]!r} with algebraic residual {g!r} (> 1e-6): an inconsistent start is used silently"))
             if f2h(y[0]) != f2h(x0) and x0 == x0:
                 fails.append((case, f"DaeIc changed the differential variable: {x0!r} -> {y[0]!r}"))
